@@ -116,13 +116,41 @@ class P(Prop):
             "are paused between the file removal and the list update while another process acts.  After every step: the "
             "result, the files that exist in the pool directory, the pool's listing.  FilePool: n files, a mode, a body "
             "that closes some handles itself, left normally or by an exception: closed flags inside and after.  "
-            "non-trivial = a multi-process history with a child create after a flush, or a split remove; distinct by "
+            "Also two single-process pools alive at the same time (nested contexts, separate directories; the state of BOTH pools after every step, the model being two independent pools).  non-trivial = a multi-process history with a child create after a flush, a split remove, or a two-pool history touching both; distinct by "
             "canonical case text")
     trusted = ["the OS file system as a set of paths; NamedTemporaryFile as 'fresh name'",
                "multiprocessing.Manager list operations are atomic (one RPC each)"]
 
+    def gen_two(self, rng):
+        """two single-process pools alive at the same time (nested contexts): [which, op, arg]; op 9 = leave the inner one"""
+        ops, npaths, live, inner_open = [], [0, 0], [[], []], True
+        for _ in range(rng.randint(2, 12)):
+            w = rng.randrange(2) if inner_open else 0
+            r = rng.random()
+            if w == 1 and r < 0.12:
+                ops.append([1, 9]); inner_open = False; live[1] = []
+            elif r < 0.5:
+                ops.append([w, 0]); live[w].append(npaths[w]); npaths[w] += 1
+            elif r < 0.68 and npaths[w]:
+                p = rng.choice(live[w]) if live[w] and rng.random() < 0.8 else rng.randrange(npaths[w])
+                ops.append([w, 1, p])
+                if p in live[w]:
+                    live[w].remove(p)
+            elif r < 0.76:
+                ops.append([w, 4]); live[w] = []
+            elif r < 0.82 and npaths[w]:
+                ops.append([w, 5, rng.randrange(npaths[w])])
+            elif r < 0.91:
+                ops.append([w, 7])
+            else:
+                ops.append([w, 8])
+        return dict(kind="twopools", ops=ops, exc=rng.randint(0, 1))
+
     def generate(self, rng, tier, n):
         for _ in range(n):
+            if rng.random() < 0.15:
+                yield self.gen_two(rng)
+                continue
             if rng.random() < 0.2:
                 nf = rng.randint(0, 4)
                 yield dict(kind="filepool", n=nf, mode=rng.choice(["r", "w", "a", "rb"]),
@@ -172,16 +200,51 @@ class P(Prop):
         yield dict(kind="tmppool", multi=1, ops=[[0, 0], [0, 6], [0, 4], [1, 0]], exc=0)
         yield dict(kind="tmppool", multi=1, ops=[[0, 6], [1, 0], [0, 0], [1, 2, 1], [0, 1, 0], [1, 3, 1]], exc=0)
         yield dict(kind="tmppool", multi=0, ops=[[0, 0], [0, 0], [0, 1, 0], [0, 1, 0], [0, 5, 1], [0, 1, 1]], exc=1)
+        # two pools at once: the inner one is left while the outer one still holds a file
+        yield dict(kind="twopools", ops=[[0, 0], [1, 0], [1, 8], [1, 9], [0, 8], [0, 7]], exc=0)
+        yield dict(kind="twopools", ops=[[1, 0], [0, 0], [0, 4], [1, 7], [1, 8]], exc=1)
 
     def to_model(self, case):
         if case["kind"] == "filepool":
             return 2001, [case["n"], case["ops"]]
+        if case["kind"] == "twopools":
+            per = [[], []]
+            for op in case["ops"]:
+                per[op[0]].append([0, 4] if op[1] == 9 else [0] + list(op[1:]))
+            if not any(op[1] == 9 for op in case["ops"]):
+                per[1].append([0, 4])
+            per[0].append([0, 4])
+            return 2002, per
         return 2000, case["ops"] + [[0, 4]]          # leaving the context = flush
 
     def canon(self, case, obs):
+        if case["kind"] == "twopools" and isinstance(obs, list):
+            if obs and obs[0] == "two":
+                return obs[1]
+            # the model's answer: one trace per pool -> one sequence over the global history, the state of the pool that
+            # did not act being carried over
+            if len(obs) != 2:
+                return obs
+            tra, trb = list(obs[0]), list(obs[1])
+            st = [[[], []], [[], []]]
+            out = []
+            left = False
+            for op in case["ops"]:
+                e = (tra if op[0] == 0 else trb).pop(0)
+                st[op[0]] = [e[1], e[2]]
+                out.append([e[0], st[0], st[1]])
+                left = left or op[1] == 9
+            if not left:
+                e = trb.pop(0); st[1] = [e[1], e[2]]
+                out.append([e[0], st[0], st[1]])
+            e = tra.pop(0); st[0] = [e[1], e[2]]
+            out.append([e[0], st[0], st[1]])
+            return out
         return obs
 
     def nontrivial(self, case, obs):
+        if case["kind"] == "twopools":
+            return len({op[0] for op in case["ops"]}) == 2
         if case["kind"] != "tmppool":
             return case["n"] >= 2
         ops = case["ops"]
@@ -195,7 +258,74 @@ class P(Prop):
     def impl(self, case):
         if case["kind"] == "filepool":
             return self.impl_filepool(case)
+        if case["kind"] == "twopools":
+            return self.impl_twopools(case)
         return self.impl_tmppool(case)
+
+    def impl_twopools(self, case):
+        import contextlib
+        from windpyutils.files import TmpPool
+        d = fc.scratch_dir()
+        dirs = [os.path.join(d, "outer"), os.path.join(d, "inner")]
+        for x in dirs:
+            os.mkdir(x)
+        names, by_ord = [{}, {}], [{}, {}]
+        pools = [None, None]
+
+        def state(w):
+            ex = sorted(names[w][os.path.join(dirs[w], f)] for f in os.listdir(dirs[w]) if os.path.join(dirs[w], f) in names[w])
+            po = pools[w]
+            # a path of the OTHER pool in this pool's listing is reported as -1
+            return [ex, [names[w].get(po[i], -1) for i in range(len(po))]]
+        tr = []
+        try:
+            try:
+                with TmpPool(dirs[0]) as outer:
+                    pools[0] = outer
+                    inner_open = True
+                    try:
+                        with contextlib.ExitStack() as stack:
+                            pools[1] = stack.enter_context(TmpPool(dirs[1]))
+                            for op in case["ops"]:
+                                w, c = op[0], op[1]
+                                po = pools[w]
+
+                                def run():
+                                    if c == 0:
+                                        p = po.create()
+                                        names[w][p] = len(names[w]); by_ord[w][names[w][p]] = p
+                                        return names[w][p]
+                                    if c == 1:
+                                        po.remove(by_ord[w].get(op[2], os.path.join(dirs[w], "never-created"))); return []
+                                    if c == 4:
+                                        po.flush(); return []
+                                    if c == 5:
+                                        p = by_ord[w].get(op[2])
+                                        if p and os.path.exists(p):
+                                            os.remove(p)
+                                        return []
+                                    raise AssertionError
+                                if c == 9:
+                                    stack.close(); inner_open = False; res = ok([])
+                                elif c == 7:
+                                    res = len(po)
+                                elif c == 8:
+                                    res = state(w)[1]
+                                else:
+                                    res = attempt(run)
+                                tr.append([res, state(0), state(1)])
+                            if case["exc"]:
+                                raise KeyError("body raises")
+                    finally:
+                        # the inner pool has been left (normally or by the exception), the outer one not yet
+                        if inner_open:
+                            tr.append([ok([]), state(0), state(1)])
+            except KeyError:
+                pass
+            tr.append([ok([]), state(0), state(1)])
+            return ["two", tr]
+        finally:
+            shutil.rmtree(d, ignore_errors=True)
 
     def impl_filepool(self, case):
         from windpyutils.files import FilePool
